@@ -29,6 +29,29 @@ func run(t *testing.T, sc sim.Scenario) engine.Verdict {
 	return oracle.RunServer(t, sc, []string{"C06/"}, func(f oracle.Facts) bool { return f.MoreThanSlots })
 }
 
+// wide: limits above the number of CPUs of any machine the check is likely
+// to run on, with more parked handlers than that.
+var wide = gen.Profile{
+	MinSteps: 10, MaxSteps: 30, Limits: []int{17, 18, 20, 24, 33},
+	PNote: 0, PGate: 96, PInvalid: 2, PUnknown: 4, PBatch: 75, MaxBatch: 9,
+	PCancel: 4, PBurst: 35, PObey: 30, Builtins: true, Pins: true, PRelease: 8,
+	Outcomes: []string{"ok", "err:-32000"},
+	Chans:    []string{"direct", "pipe"},
+}
+
+func genWide(t *rapid.T) sim.Scenario { return gen.ServerScenario(t, wide) }
+
+// notes: notifications and failing handlers take and give back slots too.
+var notes = gen.Profile{
+	MinSteps: 6, MaxSteps: 28, Limits: []int{1, 2, 3, 4},
+	PNote: 35, PGate: 60, PInvalid: 4, PUnknown: 8, PBatch: 45, MaxBatch: 5,
+	PCancel: 8, PBurst: 30, PObey: 30, Builtins: true, Pins: true, PRelease: 45,
+	Outcomes: []string{"ok", "err:-32000", "err:7", "ctxerr", "bad", "baderr"},
+	Chans:    []string{"direct", "pipe"},
+}
+
+func genNotes(t *rapid.T) sim.Scenario { return gen.ServerScenario(t, notes) }
+
 func genDeadline(t *rapid.T) sim.Scenario { return gen.DeadlineScenario(t) }
 
 func runDeadline(t *testing.T, sc sim.Scenario) engine.Verdict {
@@ -42,6 +65,14 @@ var parts = []engine.AnyPart{
 		Rule: "structured scenarios on a server whose request contexts carry a 50ms deadline (NewContext): all slots filled with parked calls, 1-4 further records of calls and notifications waiting for a slot or behind the barrier, the fake clock advanced by 200ms, fresh requests, slots given back in any order; requests whose context ended while waiting must be answered -32096 (calls) or dropped (notifications) without running and must not hold back later requests; every case is non-trivial by construction; distinct = hash of the scenario"},
 	engine.Part[sim.Scenario]{Name: "scenarios", Run: run, Gen: genCase,
 		Rule: "rapid-generated scripts with Concurrency 1-4, batches larger and smaller than the limit made mostly of parking handlers, rpc.serverInfo calls mixed in, generated release and CancelRequest orders, hook delays on the invoke sites; a counter at handler entry/exit must never exceed the limit, at every quiescent point running == min(limit, dispatched and unfinished), a built-in call is not answered while all slots are parked, a call cancelled while waiting for a slot is answered -32097 and never enters; non-trivial = more dispatched parking requests than slots at some quiescent point; distinct = hash of the scenario"},
+}
+
+func init() {
+	parts = append(parts,
+		engine.Part[sim.Scenario]{Name: "wide", Run: run, Gen: genWide,
+			Rule: "as scenarios, with Concurrency 17-33 and batches of up to 9 parking calls that are rarely released, so that more handlers are parked than the machine has CPUs and the limit is still reached; non-trivial = more dispatched parking requests than slots at some quiescent point; distinct = hash of the scenario"},
+		engine.Part[sim.Scenario]{Name: "notes", Run: run, Gen: genNotes,
+			Rule: "as scenarios, with notifications and with handlers that fail, return unmarshalable values, errors with broken data or context errors: every way a handler can end must give its slot back (clauses of C01/C03 violated in the same scenario are reported by those checks, not here); non-trivial = more dispatched parking requests than slots at some quiescent point; distinct = hash of the scenario"})
 }
 
 func TestProp(t *testing.T)   { engine.RunParts(t, "C06", parts) }
